@@ -666,6 +666,13 @@ impl<Store: StorageData> DbImpl<Store> {
     }
 
     pub(crate) fn insert_new_alias(&mut self, db_id: DbId, alias: &String) -> Result<(), DbError> {
+        if alias.is_empty() {
+            return Err(DbError::query(
+                DbErrorType::NotAllowed,
+                "Empty alias is not allowed",
+            ));
+        }
+
         self.undo_stack.push(Command::RemoveAlias {
             alias: alias.clone(),
         });
